@@ -1,5 +1,6 @@
 CONSTANTS
   TxPerOp = 1
+  ChunkMax = 0
   DurableCommit = TRUE
   MaxOps = 0
 SPECIFICATION TSpec
